@@ -73,6 +73,9 @@ def chain(node, env):
     if isinstance(node, N.Getattr):
         b = chain(node.node, env)
         return None if b is None else b + [node.attr]
+    if isinstance(node, N.Getitem) and not (isinstance(node.arg, N.Const) and isinstance(node.arg.value, str)):
+        b = chain(node.node, env)          # list[i]: dump the whole list, the interpreter indexes it
+        return None if b is None else b + ['[]']
     return None
 
 
@@ -89,6 +92,8 @@ def value(obj, path):
             return [value(x, []) for x in (sorted(obj, key=str) if isinstance(obj, (set, frozenset)) else obj)]
         return str(obj)
     if path[0] == '[]':
+        if obj is None:
+            return None
         return [value(x, path[1:]) for x in obj]
     try:
         return value(getattr(obj, path[0]), path[1:])
@@ -106,6 +111,8 @@ def build(obj, plist):
     if not plist:
         return value(obj, [])
     if all(p[0] == '[]' for p in plist):
+        if obj is None:
+            return None          # e.g. method.throwing: the template guards the loop with `if method.throwing`
         return [build(x, [p[1:] for p in plist]) for x in obj]
     out = {}
     heads = {}
@@ -192,6 +199,54 @@ def run_case(case, api_cache={}):
         shutil.rmtree(root, ignore_errors=True)
 
 
+CLASS_OF = {'enum': 'Enum', 'flags': 'Flags', 'record': 'Record', 'interface': 'Interface', 'function': 'Function', 'error_domain': 'ErrorDomain'}
+ATTRS = {'Enum': ['items'], 'Flags': ['flags'], 'Record': ['fields'], 'Interface': ['methods', 'properties'], 'Function': ['parameters'],
+         'ErrorDomain': ['error_codes']}
+SUPPORTED_FILTERS = {'comment', 'indent', 'sort', 'any', 'all', 'map', 'concat', 'join', 'length', 'list'}
+
+
+def unsupported(f):
+    """constructs of a loop subtree that the TIR interpreter does not evaluate (calls of macros / methods, exotic loop attributes, ...)"""
+    why = set()
+    for n in f.find_all(N.Node):
+        if isinstance(n, (N.Call, N.CallBlock, N.Macro, N.Include, N.Import, N.FromImport)):
+            why.add(type(n).__name__)
+        if isinstance(n, N.Filter) and n.name not in SUPPORTED_FILTERS:
+            why.add('filter:' + n.name)
+        if isinstance(n, N.Getattr) and isinstance(n.node, N.Name) and n.node.name == 'loop' and n.attr not in ('index', 'index0', 'first', 'last'):
+            why.add('loop.' + n.attr)
+        if isinstance(n, N.Test):
+            why.add('test:' + n.name)
+    return sorted(why)
+
+
+def list_loops():
+    from pydjinni import API
+    api = API()
+    out = []
+    for t in api.generation_targets.values():
+        for g in t.generator_instances:
+            tdir = g._generator_directory / 'templates'
+            if not tdir.exists():
+                continue
+            for p in sorted(tdir.rglob('*')):
+                if not p.is_file():
+                    continue
+                rel = str(p.relative_to(tdir))
+                stem = p.name.split('.')[0]
+                cls = CLASS_OF.get(stem)
+                if cls is None:
+                    continue
+                ast = g._jinja_env.parse(g.template_preprocessing(rel))
+                for attr in ATTRS[cls]:
+                    for k, f in enumerate(find_fors(ast, attr)):
+                        out.append({'gen': g.key, 'template': rel, 'attr': attr, 'index': k, 'decl_class': cls, 'unsupported': unsupported(f)})
+    return out
+
+
 if __name__ == '__main__':
     payload = read_payload()
+    if payload.get('list_loops'):
+        emit({'loops': list_loops()})
+        sys.exit(0)
     emit({'results': [run_case(c) for c in payload['cases']]})
